@@ -17,12 +17,13 @@ import json
 import random
 
 from harness import c03_lib as L
+from harness import c03_row as R
 from harness import c03_tie as T
 from harness import common, l3, pool
 from harness.common import Model
 
 PID = "C03"
-TRANSLATORS = ["T-panic", "T-runtest", "T-copies", "T-refine", "T-dynroom", "T-arithrw"]
+TRANSLATORS = ["T-panic", "T-runtest", "T-copies", "T-refine", "T-dynroom", "T-arithrw", "T-selectrow"]
 
 # Genuine defects of halmos w.r.t. C03 shown by this check on the unchanged tree (see final report).
 KNOWN = common.known_for("C03")  # entries live in /verif/known_findings.json
@@ -356,6 +357,24 @@ def gen_l3_tasks(r, tier):
         d = L.gen_directed_contract(r, co, n_each=2 if tier == "quick" else 4, combos=combos, ops=ops, lens=lens, picks=picks, idents=idents, twins=twins)
         tasks.append({"desc": d, "options": (["--panic-error-codes", co] if co else []) + extra + L.lens_options(lens) + ["--solver-timeout-assertion", "15s"], "code_opt": co, "lens": lens, "z3_ms": 800, "feas_ms": 1200,   # search aids only; the boundary candidates carry these families
                       "seed": r.getrandbits(32), "family": "directed", "limit": 100 if tier == "quick" else 200, "timeout": 200})
+    # read-over-write (Exec.select): mapping reads at symbolic keys after writes by setUp / by the test itself, run with a
+    # branching solver that gives up (harness/c03_inject.py: `unknown` injected into Path.check -- a legal answer) and as is
+    if tier == "quick":
+        row_plans = [(None, [], ["nonunsat", 1]), ("0x01", ["--storage-layout", "generic"], ["nonunsat", 2]),
+                     (None, ["--solver", "z3"], ["half", r.getrandbits(16)]), (None, [], None)]
+    else:
+        row_plans = [(L.CODE_OPTIONS[k % len(L.CODE_OPTIONS)], [[], ["--storage-layout", "generic"], ["--solver", "z3"], ["--solver", "z3", "--storage-layout", "generic"]][k % 4],
+                      [["nonunsat", k], ["half", r.getrandbits(16)], ["all", k], None, ["half", r.getrandbits(16)]][k % 5]) for k in range(20)]
+    for co, extra, inj in row_plans:
+        d = L.gen_rowmap_contract(r, co, n_tests=6)
+        tasks.append({"desc": d, "options": (["--panic-error-codes", co] if co else []) + extra + ["--solver-timeout-assertion", "15s"], "code_opt": co, "inject": inj,
+                      "seed": r.getrandbits(32), "family": "rowmap", "limit": 150, "timeout": 200})
+    # the grammar again under a branching solver that never finds a model (every non-unsat answer is `unknown`)
+    for i in range(2 if tier == "quick" else 30):
+        co = L.CODE_OPTIONS[i % len(L.CODE_OPTIONS)]
+        d = L.gen_contract(r, 3 if tier == "quick" else 5, co)
+        tasks.append({"desc": d, "options": (["--panic-error-codes", co] if co else []) + [[], ["--storage-layout", "generic"]][i % 2] + ["--solver-timeout-assertion", "15s"], "code_opt": co,
+                      "inject": [["nonunsat", "half", "all"][i % 3], r.getrandbits(16)], "seed": r.getrandbits(32), "family": "grammar-unknown", "limit": 100, "timeout": 200})
     for d, co, fam in special_contracts():
         for extra in ([], ["--solver", "z3"]) if tier != "quick" else ([],):
             tasks.append({"desc": d, "options": (["--panic-error-codes", co] if co else []) + extra, "code_opt": co, "seed": 1, "family": fam, "limit": 60})
@@ -387,10 +406,10 @@ def l3_tie(rep, m, tier, r):
     tasks = gen_l3_tasks(r, tier)
     # hand-made contracts first; every task runs to completion (per-task hard timeout); the total
     # timeout only bounds a pathologically loaded machine (unfinished tasks are counted, not failed)
-    tasks.sort(key=lambda t: t["family"] == "grammar")
+    tasks.sort(key=lambda t: (t["family"] == "grammar", t["family"] != "rowmap"))
     res = l3.run_pool(T.l3_worker, tasks, timeout=240, total_timeout=420 if tier == "quick" else 1100)
     items, keep = [], []
-    rep.coverage["l3_tasks"] = [[t["family"], " ".join(t["options"]), st, (val or {}).get("seconds") if st == "ok" else None] for t, (st, val) in zip(tasks, res)]
+    rep.coverage["l3_tasks"] = [[t["family"], " ".join(t["options"]) + (f" [branching solver: {t['inject'][0]}]" if t.get("inject") else ""), st, (val or {}).get("seconds") if st == "ok" else None] for t, (st, val) in zip(tasks, res)]
     for task, (st, val) in zip(tasks, res):
         if st != "ok":
             rep.count("l3_run", st)
@@ -412,10 +431,12 @@ def l3_tie(rep, m, tier, r):
             o = orc[sig]
             flags = val["flags"][sig]
             status = h["status"] if h else None
-            case = {"test": t, "setup": task["desc"].get("setup", []), "options": task["options"], "runtime": val["runtime"],
+            case = {"test": t, "setup": task["desc"].get("setup", []), "msetup": task["desc"].get("msetup", []), "inject": task.get("inject"), "options": task["options"], "runtime": val["runtime"],
                     "halmos": {"status": status, "flags": flags, "exitcode": rec.get("exitcode"), "bounds": (h or {}).get("bounds")}}
             n_eval += 1
-            rep.case({k: case[k] for k in ("test", "setup", "options")}, nontrivial=o["n"] > 0)
+            rep.case({k: case[k] for k in ("test", "setup", "msetup", "inject", "options")}, nontrivial=o["n"] > 0)
+            if task.get("inject"):
+                rep.count("l3_branching_solver", f"{task['family']}:{task['inject'][0]}")
             rep.count("l3_family", task["family"])
             rep.count("l3_status", f"{status}/{'violating-input' if o['violating'] else 'none-found'}" + ("/flagged" if flags else ""))
             rep.count("l3_options", " ".join(task["options"]) or "(default)")
@@ -431,12 +452,12 @@ def l3_tie(rep, m, tier, r):
                 v = o["violating"][0]
                 fam = task["family"]
                 fail_or_known(rep, "failing-input",
-                              f"halmos {' '.join(task['options'])} reports a clean [PASS] for {sig} but arguments {v['args']} end the concrete execution (reference interpreter, from the post-setUp state) in {v['outcome']}",
+                              f"halmos {' '.join(task['options'])}{' (branching solver answers: ' + task['inject'][0] + ' -> unknown)' if task.get('inject') else ''} reports a clean [PASS] for {sig}{' after setUp mapping writes ' + str(task['desc']['msetup']) if task['desc'].get('msetup') else ''} but arguments {v['args']} end the concrete execution (reference interpreter, from the post-setUp state) in {v['outcome']}",
                               case={**case, "violating_input": v, "calldata": (l3.selector(sig) + l3.abi_encode(t["params"], T.decode_input(t, v["args"]))).hex()},
                               sig={"kind": "clean-pass-with-violation", "family": fam, "outcome": v["outcome"].split(":")[0], "actions": sorted({a[0] for _, a in t["clauses"]})})
                 continue
             # model side: the extracted run_test on the predicted leaves must give halmos' exit code
-            if m is not None and status != "TIMEOUT" and "exitcode" in rec and task["family"] in ("grammar", "directed"):
+            if m is not None and status != "TIMEOUT" and "exitcode" in rec and task["family"] in ("grammar", "directed", "rowmap", "grammar-unknown"):
                 mc = predicted_model_call(t, val["cands"][sig].get("feas"), codes)
                 if mc is not None:
                     calls.append(mc)
@@ -463,15 +484,17 @@ def run(rep, tier):
         else:
             m = Model(exe)
     r = common.rng(PID)
-    n1 = l1_tie(rep, m, tier, r) + l1_solve_tie(rep, m)
+    n1 = l1_tie(rep, m, tier, r) + l1_solve_tie(rep, m) + R.l1_select_tie(rep, m, tier, r)
     n3 = l3_tie(rep, m, tier, r)
     rep.coverage["traces_validated_against_impl"] = n1 + n3
     rep.coverage["known_findings_declared"] = [k["id"] for k in KNOWN]
     return rep.finish(
-        checker_cmd="make -C coq Props/C03.vo (coq_makefile, coqc 8.16.1) after regenerating coq/Gen/GenPanic.v and GenCopies.v from src/halmos/sevm.py, GenRunTest.v from src/halmos/__main__.py and GenRefine.v from src/halmos/solve.py",
+        checker_cmd="make -C coq Props/C03.vo (coq_makefile, coqc 8.16.1) after regenerating coq/Gen/GenPanic.v, GenSelectRow.v and GenCopies.v from src/halmos/sevm.py, GenRunTest.v from src/halmos/__main__.py and GenRefine.v from src/halmos/solve.py",
         trusted_base=common.TRUSTED_BASE_COMMON + ["the fabricated forge artifacts + stub forge (harness/l3.py) and the extracted reference interpreter coq/Spec/Evm.v as EVM oracle"],
         assumptions=ASSUMPTIONS,
         rule="L1 cases = (error kind, revert data as concrete/symbolic segments, code set): every length 0..40 of the Panic(1) encoding, one-bit/one-byte selector damage, 14 codes x 7 code sets, a symbolic segment at every offset, random byte strings; random call trees for is_global_fail_set. "
+             "L1 select: the real Exec.select on chains of 0..5 Stores under EVERY script of oracle answers {unsat, sat, unknown} to `key == key_i` / `key != key_i` for chains up to 2 and random scripts beyond, vs the extracted model and vs `every decision is justified by an unsat answer`. "
+             "L3 family rowmap: mapping reads m[x] at a symbolic key after setUp wrote m[c] (and after the test's own m[x] = w), failure iff the value read is 0 / the written value / not the written value, run with `unknown` injected into the branching solver (every non-unsat answer, every answer, or half of them) and as is; the grammar again under such a solver. "
              "L3 cases = (test function description, setUp storage, halmos options): tests `if (g) action; ...; STOP` with g from {eq const, lt/gt, add/sub/mul/xor/and/or relations, mul/div/mod/sdiv/smod, shifts, signed compares, bit tests, storage written by setUp, dynamic length guards, element/word guards} over static and dynamic parameters, actions {Panic(k) inside/outside the configured set, 35/37/68-byte near-panics, other selectors, DSTest.fail, revert, INVALID}; options: panic code sets x solver {yices, z3} x storage layout; directed families: a calldata word / array element pinned by `== c` on a benign branch and read again on the sibling branch where the failure needs another value; tests with 2-3 dynamic parameters whose failure needs one combination of their lengths (all 9 index combinations in the thorough tier); a given length together with a given value of the last element / word existing at that length, under length candidates configured as the defaults, as descending lists (--default-array-lengths 2,1,0 --default-bytes-lengths 65,33,0) and as an unsorted per-parameter list (--array-lengths a0={1,3,2}); `if (!(identity)) fail` for identities of machine arithmetic that fail only at special points ((a*b)/b == a, (a/b)*b + a%b == a, a % b < b, ... on masked and unmasked operands, plus identities that hold everywhere as controls); two parameters of the same type with empty / equal / distinct ABI names whose values, lengths or elements must differ for the failure; failures at the special-case points of div / mod / sdiv / smod (zero divisor, MIN / -1) and of a wrapping mul, with symbolic operands; "
              "non-trivial = the oracle executed at least one candidate input on the reference interpreter; distinct by hash of (test, setUp, options)",
         partial="the theorem is a composition over named hypotheses (C01/C02/C11/C16/C04 are proved and tied by their own properties); the oracle can only exhibit violations among its candidates (z3 models of the guard + boundary set), it does not prove their absence",
@@ -482,12 +505,16 @@ def replay(rep, body):
     for f in body.get("failures", []):
         case = f.get("case") or {}
         if "test" in case:
-            desc = {"cname": "T", "setup": case.get("setup", []), "tests": [case["test"]]}
+            desc = {"cname": "T", "setup": case.get("setup", []), "msetup": case.get("msetup", []), "tests": [case["test"]]}
             rt, c = L.compile_contract(desc)
-            with l3.Project([c]) as p:
-                r = p.run(case.get("options", []))
+            with R.InjProject([c]) as p:
+                r = p.run(case.get("options", []), inject=case.get("inject"))
             print(r.out[-2000:])
             print("violating input:", json.dumps(case.get("violating_input")))
+        elif case.get("l1") == "select":
+            c = (case["symbolic"], case["stores"], case["answers(eq_i,ne_i; 0 unsat 1 sat 2 unknown)"])
+            got = R.impl_select(c)
+            print("Exec.select:", got, "--", R.spec_select_ok(c, got) or "justified by the oracle's proofs")
         elif case.get("l1") == "is_panic_of" or "data" in case:
             err = {v: k for k, v in ERR_NAMES.items()}[case.get("error")]
             print("implementation:", impl_is_panic(err, case.get("data"), case.get("codes")), "spec:", spec_is_panic(err, case.get("data"), case.get("codes")))
